@@ -3,6 +3,7 @@ package satisfaction_levels
 import (
 	"github.com/Azbesciak/RealDecisionMaker/lib/model"
 	"github.com/Azbesciak/RealDecisionMaker/lib/utils"
+	"math"
 )
 
 //go:generate easytags $GOFILE json:camel
@@ -45,10 +46,11 @@ func (s *IdealCoefficientSatisfactionLevels) Next() model.Weights {
 	for i, c := range s.criteria {
 		valRange := s.criteriaValuesRanges[i]
 		delta := valRange.Diff() * s.currentValue
+		// min + (max-min) may round past max: a level never leaves the value range
 		if c.Multiplier() > 0 {
-			weights[c.Id] = valRange.Min + delta
+			weights[c.Id] = math.Min(valRange.Min+delta, valRange.Max)
 		} else {
-			weights[c.Id] = valRange.Max - delta
+			weights[c.Id] = math.Max(valRange.Max-delta, valRange.Min)
 		}
 	}
 	nextValue := s.manager.UpdateValue(s.currentValue, s.Coefficient)
